@@ -1,5 +1,54 @@
+use std::path::PathBuf;
+use vharness::run::{self, Tier};
+
+fn arg(args: &[String], name: &str) -> Option<String> {
+    args.iter().position(|a| a == name).and_then(|i| args.get(i + 1).cloned())
+}
+
 fn main() {
-    let reg = vharness::shapes::registry();
-    println!("{} shapes", reg.len());
-    for s in &reg { println!("{} align={} min={}", s.ty().short(), s.consts().align, s.consts().min_size); }
+    let args: Vec<String> = std::env::args().collect();
+    let props = vharness::props::all();
+    let cmd = args.get(1).map(|s| s.as_str()).unwrap_or("");
+    let find = |id: &str| -> &'static dyn run::Property {
+        *props.iter().find(|p| p.id() == id).unwrap_or_else(|| {
+            eprintln!("unknown property {}", id);
+            std::process::exit(3)
+        })
+    };
+    let tier = match arg(&args, "--tier").as_deref() {
+        Some("thorough") => Tier::Thorough,
+        _ => Tier::Quick,
+    };
+    let seed: u64 = arg(&args, "--seed")
+        .or_else(|| std::env::var("VERIF_SEED").ok())
+        .and_then(|s| s.parse().ok())
+        .unwrap_or(0);
+    let code = match cmd {
+        "run" => run::supervise(find(&arg(&args, "--prop").expect("--prop")), tier, seed),
+        "worker" => {
+            let a = run::WorkerArgs {
+                tier,
+                seed,
+                shard: arg(&args, "--shard").unwrap().parse().unwrap(),
+                nshards: arg(&args, "--nshards").unwrap().parse().unwrap(),
+                journal: PathBuf::from(arg(&args, "--journal").unwrap()),
+                out: PathBuf::from(arg(&args, "--out").unwrap()),
+            };
+            run::worker(find(&arg(&args, "--prop").expect("--prop")), &a)
+        }
+        "replay" => run::replay(&props, &PathBuf::from(arg(&args, "--file").expect("--file"))),
+        "shapes" => {
+            let reg = run::Registry::load();
+            for s in &reg.shapes {
+                let c = s.consts();
+                println!("{} align={} min={}", s.ty().short(), c.align, c.min_size);
+            }
+            0
+        }
+        _ => {
+            eprintln!("usage: vcheck run|worker|replay|shapes ...");
+            3
+        }
+    };
+    std::process::exit(code);
 }
